@@ -680,3 +680,8 @@ LEVEL_TEXT = ("Only the ancestor-lookup clause of C17 is decided (SMT over the r
               "are outside the reach of solver-based checking and are not claimed.")
 LEVEL_NOTE = "Claim = skip-list ancestor lookup equals parent walking (inductive step + data invariant). Orphan pool / in-flight table / header map: not covered."
 TECHNIQUE = "symbolic execution of rustc MIR -> integer-theory SMT (cvc5 + z3), one loop iteration as inductive step"
+
+# ---- extended claim (session 3)
+BOUNDS = dict(BOUNDS, m5_m7="one call from an arbitrary state (closure bodies executed with their captures as symbols)", m6="one operation on one key from an arbitrary two-tier state (key in memory / backend / both / neither); inductive step")
+LEVEL_TEXT = LEVEL_TEXT + " Also decided: m5 the main-chain shortcut of get_ancestor reads is_main_chain / tip_number / get_block_hash from ONE captured snapshot and is guarded by `not above tip and on chain`; m6 the header map's memory+backend tiers refine a plain map for contains_key/get/insert/remove and limit_memory moves exactly what it spilled; m7 a timed-out traced in-flight request is released on both sides (state table and the peer's own set) whether or not the peer is punished."
+LEVEL_NOTE = "Claim = skip-list ancestor lookup incl. snapshot-consistent shortcut, locator schedule, header-map tier composition (kernel), in-flight trace timeout step. Orphan pool, the rest of the in-flight table, MemoryMap/sled containers: outside."
